@@ -1,0 +1,23 @@
+//go:build verif
+
+package consensus
+
+// Add-only accessor for the /verif correspondence harness (build tag `verif`), property C13.
+
+import (
+	"fmt"
+
+	sm "github.com/tendermint/tendermint/state"
+)
+
+// VerifReconstructLastCommit calls the real reconstructLastCommit (what SwitchToConsensus does
+// first when state.LastBlockHeight > 0) and returns the panic message, "" if it returned.
+func VerifReconstructLastCommit(cs *State, state sm.State) (panicked string) {
+	defer func() {
+		if r := recover(); r != nil {
+			panicked = fmt.Sprint(r)
+		}
+	}()
+	cs.reconstructLastCommit(state)
+	return ""
+}
